@@ -57,6 +57,8 @@ def scene_cases(rng, n):
     for i in range(n):
         w, h = rng.choice([(24, 24), (40, 17), (9, 33)])
         cases.append(("scene", [rng.getrandbits(40), w, h, i % 7]))
+    for i in range(max(2, n // 40)):    # pattern sources with more than 32767 columns / rows
+        cases.append(("scene", [rng.getrandbits(40), 24, 24, 8]))
     return cases
 
 
@@ -187,6 +189,12 @@ def extra(ctx, vp):
         for i in range(len(lines)):
             ctx.evaluations += 1
             if outs[c][i] == ref[i]:
+                continue
+            if ref[i].startswith(("PANIC", "CRASH", "HANG")) or outs[c][i].startswith(("PANIC", "CRASH", "HANG")):
+                who = "sse2" if ref[i].startswith(("PANIC", "CRASH", "HANG")) else c
+                ctx.violations.append({"kind": "property", "profile": "cfg-" + who, "suite": "scene", "args": cases[i][1],
+                                       "impl": (ref[i] if who == "sse2" else outs[c][i])[:300],
+                                       "what": "the %s build does not return on a scene that the %s build renders" % (who, c if who == "sse2" else "sse2")})
                 continue
             n, mx, first = scene_diff(ref[i], outs[c][i])
             # the hardware reciprocal of ColorDodge / ColorBurn may differ by 1/255 per channel and draw between the
